@@ -55,6 +55,30 @@ def width_task(t):
             except AssertionError:
                 if inr:
                     report("to_bits-rejects-in-range", w, v, "to_bits(%d) raised" % w)
+            # the same call inside a taken branch (one / two true guards) accepts and returns exactly the same
+            for depth in (1, 2):
+                H.reset(bitlength=n)
+                x = rt.PrivVal(v)
+                gs = [H.boolean.PrivValBool(1) for _ in range(depth)]
+                baks = [rt.add_guard(g) for g in gs]
+                st["executions"] += 1
+                try:
+                    try:
+                        bits = x.to_bits(w)
+                        accepted = True
+                    except AssertionError:
+                        accepted = False
+                finally:
+                    for b in reversed(baks):
+                        rt.restore_guard(b)
+                if accepted and not inr:
+                    report("to_bits-accepts-out-of-range-in-taken-branch", w, v, "to_bits(%d) inside %d taken branch(es) accepted the value" % (w, depth))
+                elif not accepted and inr:
+                    report("to_bits-rejects-in-range-in-taken-branch", w, v, "to_bits(%d) inside %d taken branch(es) raised" % (w, depth))
+                elif accepted and [H.plain(b) for b in bits] != [(v >> i) & 1 for i in range(w)]:
+                    report("round-trip-wrong-in-taken-branch", w, v, "bits %s" % [H.plain(b) for b in bits])
+                if accepted and H.R.unsatisfied():
+                    report("unsat", w, v, "to_bits constraints emitted inside a taken branch are not satisfied")
             # history: the same object was decomposed before at another width (wider, narrower, the global one)
             for first in (w + 2, max(w - 1, 0), None):
                 H.reset(bitlength=n)
@@ -144,6 +168,87 @@ def width_task(t):
                     if bool(sols) != inr:
                         report("%s-width-not-enforced" % meth, w, v, "system %s although the value %s a %d-bit non-negative integer"
                                % ("satisfiable" if sols else "unsatisfiable", "is" if inr else "is not", w))
+    return {"st": st, "viols": viols, "states": 0}
+
+
+# ------------------------------------------------------------------------------------------------ wide widths
+
+WIDE = (8, 15, 16, 17, 18, 24, 31, 32, 33, 64, 100, 253)
+
+
+def wide_values(w):
+    vs = {0, 1, 2, 2 ** w - 1, 2 ** w - 2, 2 ** w, 2 ** w + 1, -1, -2 ** w}
+    for k in (7, 8, 15, 16, 17, 31, 32, 63, 64):
+        if k < w:
+            vs |= {2 ** k - 1, 2 ** k, 2 ** k + 1, 2 ** w - 2 ** k, 2 ** (w - 1) + 2 ** k}
+    if w > 1:
+        vs |= {2 ** (w - 1), 2 ** (w - 1) - 1, sum(1 << i for i in range(0, w, 2)), sum(1 << i for i in range(1, w, 2))}
+    return sorted(vs)
+
+
+def wide_task(t):
+    """Value level only (the witness-space engine is not run on these): explicit widths and global
+    bitlengths beyond every small table size, boundary lattice of values including one-bit-set values."""
+    n, p = t
+    st = {"executions": 0, "transitions": 0, "e2_instances": 0, "nodes": 0, "undecided": 0}
+    viols = {}
+
+    def report(klass, w, v, text):
+        sig = {"klass": klass, "rel": "wide"}
+        k = common.sig_hash(sig)
+        if k not in viols:
+            viols[k] = {"sig": sig, "count": 0, "what": "width %d, global bitlength %d, value %d: %s" % (w, n, v, text),
+                        "case": {"kind": "wide", "n": n, "p": p}}
+        viols[k]["count"] += 1
+
+    for w in WIDE + (None,):
+        ww = n if w is None else w
+        if 2 ** (ww + 1) >= p:
+            continue
+        for v in wide_values(ww):
+            inr = 0 <= v < 2 ** ww
+            H.R.p = p
+            H.reset(bitlength=n)
+            rt = H.rt
+            for form in ("to_bits", "assert_positive", "pack"):
+                H.reset(bitlength=n)
+                x = rt.PrivVal(v)
+                st["executions"] += 1
+                try:
+                    if form == "to_bits":
+                        bits = x.to_bits() if w is None else x.to_bits(w)
+                        back = rt.LinComb.from_bits(bits)
+                        ok = len(bits) == ww and H.plain(back) == v and [H.plain(b) for b in bits] == [(v >> i) & 1 for i in range(ww)]
+                        if H.value_wire_mismatches(back):
+                            report("recomposition-value!=wire", ww, v, "from_bits value %s differs from its wire" % H.plain(back))
+                    elif form == "assert_positive":
+                        x.assert_positive() if w is None else x.assert_positive(w)
+                        ok = True
+                    else:
+                        from pysnark.pack import PackIntMod
+                        if ww > n or ww < 2:
+                            continue
+                        m = 2 ** ww - 1
+                        pk = PackIntMod(m)
+                        bits = pk.pack(x)
+                        back = pk.unpack(bits, 0)
+                        ok = H.plain(back) == v and len(bits) == ww
+                        if v == m:
+                            raise AssertionError("harness: PackIntMod accepted the modulus itself")
+                    st["transitions"] += 2
+                    if not inr:
+                        report("%s-accepts-out-of-range" % form, ww, v, "accepted")
+                    elif not ok:
+                        report("round-trip-wrong", ww, v, "bits recompose to %s" % H.plain(back))
+                    if H.R.unsatisfied():
+                        report("unsat", ww, v, "%s constraints not satisfied" % form)
+                except AssertionError as ex:
+                    if str(ex).startswith("harness"):
+                        report("packintmod-accepts-the-modulus", ww, v, "PackIntMod(2^%d-1) unpacked the value 2^%d-1" % (ww, ww))
+                    elif inr and not (form == "pack" and v >= 2 ** ww - 1):
+                        report("%s-rejects-in-range" % form, ww, v, "raised")
+                except Exception as ex:  # noqa: BLE001
+                    report("%s-raises-other" % form, ww, v, "raised %s: %s" % (type(ex).__name__, str(ex)[:80]))
     return {"st": st, "viols": viols, "states": 0}
 
 
@@ -300,14 +405,16 @@ def _init():
 
 
 def _dispatch(t):
-    return width_task(t[1:]) if t[0] == "w" else pack_task(t[1:])
+    return width_task(t[1:]) if t[0] == "w" else wide_task(t[1:]) if t[0] == "W" else pack_task(t[1:])
 
 
 def run(ctx):
     p = [REC.BN128, REC.BLS12_381, REC.CURVE25519][ctx.seed % 3]
     tasks = [("w", n, p) for n in (3, 4, 6)]
+    tasks += [("W", n, p) for n in (16, 20, 40)]
     sch = schemas(2)
     if ctx.thorough:
+        tasks += [("W", n, q) for n in (16, 17, 33, 64, 128) for q in (REC.BN128, REC.BLS12_381, REC.CURVE25519)]
         tasks += [("w", n, q) for n in (3, 5) for q in (REC.BLS12_381, REC.CURVE25519)]
     random.Random(ctx.seed).shuffle(sch)
     nchunk = common.NCPU * 2
@@ -341,7 +448,9 @@ def run(ctx):
 
 def replay(case):
     H.bind(case["p"])
-    if case["kind"] == "width":
+    if case["kind"] == "wide":
+        r = wide_task((case["n"], case["p"]))
+    elif case["kind"] == "width":
         r = width_task((case["n"], case["p"]))
     else:
         s = [x for x in schemas(2) if sdesc(x) == case["desc"]]
